@@ -942,6 +942,126 @@ async fn e_custom_ok(rqctx: RequestContext<Ctx>, _q: Query<QA>) -> Result<HttpRe
     Ok(HttpResponseOk(RB::mk(&mut r)))
 }
 
+// ------------------------------------- user-defined error types, continued
+
+/// a second error type whose schema name is `Error`, like the body of
+/// dropshot's own HttpError: the document has to tell the two apart
+/// (components Error / Error2) for every operation
+pub mod other {
+    use dropshot::{ErrorStatusCode, HttpError, HttpResponseError};
+    use schemars::JsonSchema;
+    use serde::Serialize;
+
+    #[derive(Debug, Serialize, JsonSchema)]
+    pub struct Error {
+        pub kind: String,
+        pub why: Vec<String>,
+        #[serde(skip)]
+        pub status: ErrorStatusCode,
+    }
+    impl std::fmt::Display for Error {
+        fn fmt(&self, f: &mut std::fmt::Formatter<'_>) -> std::fmt::Result {
+            f.write_str(&self.kind)
+        }
+    }
+    impl From<HttpError> for Error {
+        fn from(e: HttpError) -> Self {
+            Error { kind: format!("{}", e.status_code.as_u16()), why: vec![e.external_message], status: e.status_code }
+        }
+    }
+    impl HttpResponseError for Error {
+        fn status_code(&self) -> ErrorStatusCode {
+            self.status
+        }
+    }
+}
+
+pub trait UserErr: From<HttpError> + HttpResponseError + Send + Sync + 'static {}
+impl UserErr for MyErr {}
+impl UserErr for other::Error {}
+
+/// success path with required parameters: extractor failures are converted
+async fn x_q<E: UserErr>(rqctx: RequestContext<Ctx>, _q: Query<QA>) -> Result<HttpResponseOk<RB>, E> {
+    let mut r = enter(&rqctx);
+    Ok(HttpResponseOk(RB::mk(&mut r)))
+}
+async fn x_p<E: UserErr>(rqctx: RequestContext<Ctx>, p: Path<P1<u32>>) -> Result<HttpResponseOk<u32>, E> {
+    let _ = enter(&rqctx);
+    Ok(HttpResponseOk(p.into_inner().v))
+}
+/// handler-returned errors
+async fn x_err<E: UserErr>(rqctx: RequestContext<Ctx>, q: Query<ECtl>) -> Result<HttpResponseOk<RA>, E> {
+    let mut r = enter(&rqctx);
+    Err(E::from(mk_http_error(q.into_inner().mode, &mut r)))
+}
+
+/// the handler returns Ok, but the value cannot be turned into a response
+/// when `fail` is set: the framework's own 500 has to come out in the
+/// endpoint's error type
+#[derive(Deserialize, JsonSchema)]
+pub struct TrCtl {
+    pub fail: bool,
+}
+pub fn spec_trctl() -> String {
+    spec(&[lf("fail", ST_BOOL, REQ, None)])
+}
+#[derive(Serialize, JsonSchema)]
+pub struct TrHdrs {
+    #[serde(rename = "x-tr")]
+    pub tr: String,
+}
+async fn tr_hdr<E: UserErr>(
+    rqctx: RequestContext<Ctx>,
+    q: Query<TrCtl>,
+) -> Result<HttpResponseHeaders<HttpResponseOk<RA>, TrHdrs>, E> {
+    let mut r = enter(&rqctx);
+    let tr = if q.into_inner().fail { "two\nlines".to_string() } else { "one line".to_string() };
+    Ok(HttpResponseHeaders::new(HttpResponseOk(RA::mk(&mut r)), TrHdrs { tr }))
+}
+/// a body whose Serialize fails at run time
+pub struct Flaky {
+    pub fail: bool,
+}
+impl Serialize for Flaky {
+    fn serialize<S: serde::Serializer>(&self, s: S) -> Result<S::Ok, S::Error> {
+        if self.fail {
+            return Err(serde::ser::Error::custom("cannot be serialised"));
+        }
+        use serde::ser::SerializeMap;
+        let mut m = s.serialize_map(Some(1))?;
+        m.serialize_entry("ok", &true)?;
+        m.end()
+    }
+}
+impl JsonSchema for Flaky {
+    fn schema_name() -> String {
+        "Flaky".into()
+    }
+    fn json_schema(_: &mut schemars::gen::SchemaGenerator) -> schemars::schema::Schema {
+        serde_json::from_value(serde_json::json!({
+            "type": "object", "required": ["ok"], "properties": {"ok": {"type": "boolean"}}
+        }))
+        .unwrap()
+    }
+}
+async fn tr_ser<E: UserErr>(rqctx: RequestContext<Ctx>, q: Query<TrCtl>) -> Result<HttpResponseCreated<Flaky>, E> {
+    let _ = enter(&rqctx);
+    Ok(HttpResponseCreated(Flaky { fail: q.into_inner().fail }))
+}
+/// the same two with dropshot's own error type
+async fn tr_hdr_http(
+    rqctx: RequestContext<Ctx>,
+    q: Query<TrCtl>,
+) -> HR<HttpResponseHeaders<HttpResponseOk<RA>, TrHdrs>> {
+    let mut r = enter(&rqctx);
+    let tr = if q.into_inner().fail { "two\nlines".to_string() } else { "one line".to_string() };
+    Ok(HttpResponseHeaders::new(HttpResponseOk(RA::mk(&mut r)), TrHdrs { tr }))
+}
+async fn tr_ser_http(rqctx: RequestContext<Ctx>, q: Query<TrCtl>) -> HR<HttpResponseCreated<Flaky>> {
+    let _ = enter(&rqctx);
+    Ok(HttpResponseCreated(Flaky { fail: q.into_inner().fail }))
+}
+
 // ------------------------------------------------------------ registration
 
 const JSON: &str = "application/json";
@@ -1088,6 +1208,19 @@ pub fn build_api() -> (ApiDescription<Ctx>, Ctx, BTreeMap<String, OpInfo>) {
     reg!("e_http", e_http, Method::GET, JSON, "/e/http", info(OK_J).q(spec_ectl()));
     reg!("e_custom", e_custom, Method::GET, JSON, "/e/custom", info(OK_J).q(spec_ectl()).ce());
     reg!("e_custom_ok", e_custom_ok, Method::GET, JSON, "/e/custom_ok", info(OK_J).q(spec_qa()).ce());
+    // user-defined error types: `MyErr`, and `other::Error` whose schema name
+    // collides with dropshot's
+    reg!("c_q", x_q::<MyErr>, Method::GET, JSON, "/c/q", info(OK_J).q(spec_qa()).ce());
+    reg!("c_p", x_p::<MyErr>, Method::GET, JSON, "/c/p/{v}", info(OK_J).p(spec_p1::<u32>()).ce());
+    reg!("c_tr_hdr", tr_hdr::<MyErr>, Method::GET, JSON, "/c/tr/hdr", info(OK_J).q(spec_trctl()).h(&["x-tr"]).ce());
+    reg!("c_tr_ser", tr_ser::<MyErr>, Method::POST, JSON, "/c/tr/ser", info(CREATED_J).q(spec_trctl()).ce());
+    reg!("x_q", x_q::<other::Error>, Method::GET, JSON, "/x/q", info(OK_J).q(spec_qa()).ce());
+    reg!("x_p", x_p::<other::Error>, Method::GET, JSON, "/x/p/{v}", info(OK_J).p(spec_p1::<u32>()).ce());
+    reg!("x_err", x_err::<other::Error>, Method::GET, JSON, "/x/err", info(OK_J).q(spec_ectl()).ce());
+    reg!("x_tr_hdr", tr_hdr::<other::Error>, Method::GET, JSON, "/x/tr/hdr", info(OK_J).q(spec_trctl()).h(&["x-tr"]).ce());
+    reg!("x_tr_ser", tr_ser::<other::Error>, Method::POST, JSON, "/x/tr/ser", info(CREATED_J).q(spec_trctl()).ce());
+    reg!("h_tr_hdr", tr_hdr_http, Method::GET, JSON, "/h/tr/hdr", info(OK_J).q(spec_trctl()).h(&["x-tr"]));
+    reg!("h_tr_ser", tr_ser_http, Method::POST, JSON, "/h/tr/ser", info(CREATED_J).q(spec_trctl()));
     let entered = ops.keys().map(|o| (o.clone(), Arc::new(AtomicU64::new(0)))).collect();
     (api, Ctx { entered }, ops)
 }
